@@ -1,6 +1,8 @@
 #!/usr/bin/env python3
 """Build the candidate fix patches notes/fixes/C18-*.diff (unified diffs against /repo) and,
-with `test <name>`, apply one to the scratch worktree /tmp/c18mut and run the check on it."""
+with `test <name>`, apply one to the scratch worktree /tmp/c18mut and run the check on it
+(create the scratch checkout with `git -C /repo worktree add --detach /tmp/c18mut HEAD`, remove it
+with `git -C /repo worktree remove --force /tmp/c18mut`)."""
 import difflib, os, shutil, subprocess, sys
 
 HERE = os.path.dirname(os.path.dirname(os.path.abspath(__file__)))
